@@ -15,7 +15,7 @@ def codec_cfgs(quick):
     cfgs = [{"codec": "w3", "blocklimit": 1}, {"codec": "w3", "blocklimit": 2}, {"codec": "w3", "blocklimit": 3},
             {"codec": "w3", "blocklimit": 128}, {"codec": "w3", "blocklimit": 4, "compression": 0},
             {"codec": "w3", "blocklimit": 4, "compression": 9}, {"codec": "w3", "blocklimit": 2, "inlinelimit": 3},
-            {"codec": "memory"}, {"codec": "plaintext"}]
+            {"codec": "memory"}, {"codec": "memory", "sessions": 2}, {"codec": "plaintext"}]
     return cfgs
 
 
@@ -25,9 +25,13 @@ def build(cfg, schema, adocs, keys):
     if cfg["codec"] == "memory":
         from whoosh.codec import memory
         codec = memory.MemoryCodec()
-        with codec.writer(schema) as w:
-            for k in keys:
-                w.add_document(**cworld.concrete_kwargs(adocs[k]))
+        # several writer sessions on the same in-memory segment (terms of earlier sessions come back)
+        cut = len(keys) // 2 if cfg.get("sessions", 1) > 1 else len(keys)
+        for part in (keys[:cut], keys[cut:]):
+            if part:
+                with codec.writer(schema) as w:
+                    for k in part:
+                        w.add_document(**cworld.concrete_kwargs(adocs[k]))
         rd = codec.reader(schema)
         return rd, rd.close
     ix = RamStorage().create_index(schema)
